@@ -10,13 +10,17 @@ def run(ctx):
     b = build.ensure_explorer("arc_walk", "asan", extra_ld=WRAP)
     ctx.run_space(b, "kinds", ["prop=16", "stride=1"], cpu_limit=120)
     ctx.run_space(b, "sfx", cpu_limit=120)
+    from vlib import cliprop
+    from props import cli_misc
+    cliprop.run_space(ctx, "props.cli_misc", "c16", cli_misc.cases_io(ctx.thorough), chunk=16)
     ctx.assumptions += ["member tables come from the archive builder (reference header encoder + reference stream serialisers); for a member whose data is cut only equality across stream kinds is required"]
     return ctx.finish(
         rule="'kinds': 7 generated archives (levels 0-3, all 14 methods, directories/links, SFX stub, empty/unknown-method members, members crossing the read blocks) cut at every offset (quick: every offset near headers/member ends and a stride elsewhere) x walks {list, read, check} x 5 stream kinds "
              "{seekable FILE, pipe FILE, callbacks without skip, callbacks whose skip fails past the end, seek-like skip}: observations (headers, bytes, verdicts) equal across kinds and equal to the member table for complete members; "
              "'sfx': clean prefixes of every length 0..64, around k*24, 1000..1050, 255KiB-40..255KiB x 3 filler families x {pipe, callbacks}; near-miss fragments at every offset of prefixes up to 40 bytes; marker + one decoy header at 48 offsets x gaps. non-trivial = distinct (archive, cut, walk) / prefix shapes",
-        replay_fn=lambda rep: runner.replay_explorer(rep, quiet=True))
+        replay_fn=lambda rep: (cliprop.replay_case(rep) if rep.get('kind') == 'cli' else runner.replay_explorer(rep, quiet=True)))
 
 
 def replay(rep):
-    return runner.replay_explorer(rep)
+    from vlib import cliprop
+    return cliprop.replay_case(rep) if rep.get('kind') == 'cli' else runner.replay_explorer(rep)
